@@ -518,8 +518,13 @@ _jpeg_skip_scanlines(j_decompress_ptr cinfo, JDIMENSION num_lines)
       cinfo->output_height) {
     num_lines = cinfo->output_height - cinfo->output_scanline;
     cinfo->output_scanline = cinfo->output_height;
-    (*cinfo->inputctl->finish_input_pass) (cinfo);
-    cinfo->inputctl->eoi_reached = TRUE;
+    /* In buffered-image mode, there may be additional scans to read, and
+     * jpeg_finish_output() takes care of finishing the current input scan.
+     */
+    if (!cinfo->buffered_image) {
+      (*cinfo->inputctl->finish_input_pass) (cinfo);
+      cinfo->inputctl->eoi_reached = TRUE;
+    }
     return num_lines;
   }
 
